@@ -300,12 +300,16 @@ const (
 	kContentDeflt // contentOf for a name nothing stores: its own block is rendered with the data (twice, second time without)
 	kPartialLay   // partial with data and a layout; the layout lets x, v and k and prints nothing but the partial (again without data and layout)
 	kForCall      // for (bind) in mk(): the iterable comes from a function that lets x and v before it returns it
+	kPartialHeld  // the data hash of a partial is held in a variable and used by two calls; the hash is read back afterwards
+	kContentHeld  // the same for contentFor + contentOf
+	kPartialLoop  // one held data hash handed to the same partial on each of two loop passes
 	nKinds
 )
 
 var kindNames = []string{"for", "fn", "partial", "contentFor/Of", "block-helper",
 	"for-key", "for-map-key", "for-map-val", "for-iter", "for-iter-key", "for-empty", "for-nil", "for-two", "for-silent",
-	"fn-return", "fn-return-if", "fn-2params", "fn-called-twice", "fn-recursive", "partial-datavar", "contentOf-default-block", "partial-with-layout", "for-over-call"}
+	"fn-return", "fn-return-if", "fn-2params", "fn-called-twice", "fn-recursive", "partial-datavar", "contentOf-default-block", "partial-with-layout", "for-over-call",
+	"partial-held-data", "contentOf-held-data", "partial-held-data-in-loop"}
 
 // construct wraps body in scope construct kind, binding `bind` (a name from the
 // pool, or "") the way that construct binds names (loop variable / parameter /
@@ -437,6 +441,32 @@ func (b *builder) construct(kind int, bind, val string, body []model.Node) []mod
 		b.partials[ln] = []model.Node{let("x", "lay"), let("v", "lay"), let("k", "lay"), model.Emit{X: model.Var{Name: "yield"}}}
 		d := append([]model.KV{{K: "layout", V: lit(ln)}}, data...)
 		return []model.Node{model.EmitPartial{Name: pn, Data: d}, T("~again:"), model.EmitPartial{Name: pn, Data: []model.KV{}}}
+	case kPartialHeld, kContentHeld, kPartialLoop:
+		// let ov = {bind: val, z: "z"}; the construct twice with ov as its data; ov[bind] afterwards: what the
+		// construct lets is its own, also when the next use is handed the same hash
+		ov := b.next("held")
+		kvs := []model.KV{{K: "zz", V: lit("z")}}
+		back := "zz"
+		if bind != "" {
+			kvs = append([]model.KV{{K: bind, V: lit(val)}}, kvs...)
+			back = bind
+		}
+		out := []model.Node{letx(ov, model.Hash{KVs: kvs})}
+		readBack := []model.Node{T("~held:"), model.Emit{X: model.Idx{X: model.Var{Name: ov}, I: lit(back)}}}
+		switch kind {
+		case kPartialHeld:
+			pn := b.next("part")
+			b.partials[pn] = body
+			out = append(out, model.EmitPartial{Name: pn, Var: ov}, T("~again:"), model.EmitPartial{Name: pn, Var: ov})
+		case kPartialLoop:
+			pn := b.next("part")
+			b.partials[pn] = body
+			out = append(out, model.EmitFor{For: &model.For{Val: b.next("lv"), Iter: model.Arr{Els: []model.Expr{lit(1), lit(2)}}, Body: []model.Node{model.EmitPartial{Name: pn, Var: ov}, T(";")}}})
+		default:
+			cn := b.next("cf")
+			out = append(out, model.ContentFor{Name: cn, Body: body}, model.EmitContentOf{Name: cn, Var: ov}, T("~again:"), model.EmitContentOf{Name: cn, Var: ov})
+		}
+		return append(out, readBack...)
 	case kContentDeflt:
 		return []model.Node{model.EmitBlock{Helper: "cofb", Data: data, Body: body}, T("~again:"), model.EmitBlock{Helper: "cofb", Body: body}}
 	}
